@@ -16,11 +16,13 @@ def realise(c, scratch, tag):
     img = mkdisc.blank_surface(NSEC, salt)
     ents = []
     if x["start"]:
-        ents.append(mkdisc.entry("F", length=300, start=x["start"], load=0x1900, exe=0x8023))
+        ents.append(mkdisc.entry("F", length=0 if x["flen0"] else 300, start=x["start"], load=0x1900, exe=0x8023))
+    elif x["flen0"]:
+        return None, None          # no file: nothing to be of zero length
     opus_listed = x["vols"] != "none"
     a_len = (40 - 1) * 18
     cat_total = a_len if opus_listed else x["total"]
-    if x["vols"] == "valid" and not x["cat0"]:
+    if x["vols"] in ("valid", "valid1") and not x["cat0"]:
         return None, None          # volume A's catalogue *is* sectors 0/1
     if x["start"] and not x["cat0"]:
         return None, None          # a file is only "catalogued" by a valid catalogue
@@ -29,10 +31,15 @@ def realise(c, scratch, tag):
     mkdisc.put(img, 0, s0)
     mkdisc.put(img, 1, s1)
     if opus_listed:
-        b0, b1 = mkdisc.catalog_fragment(b"VOLB", 0, 0, 720, [mkdisc.entry("BF", length=10, start=0)],
-                                         count_byte=None if x["vols"] == "valid" else 5)
+        # valid1: B is a single track (the minimum), C has the rest
+        b0, b1 = mkdisc.catalog_fragment(b"VOLB", 0, 0, 18 if x["vols"] == "valid1" else 720, [mkdisc.entry("BF", length=10, start=0)],
+                                         count_byte=None if x["vols"] != "invalid" else 5)
         mkdisc.put(img, 2, b0)
         mkdisc.put(img, 3, b1)
+        if x["vols"] == "valid1":
+            c0, c1 = mkdisc.catalog_fragment(b"VOLC", 0, 0, 39 * 18, [mkdisc.entry("CF", length=10, start=0)])
+            mkdisc.put(img, 4, c0)
+            mkdisc.put(img, 5, c1)
     if x["aa2"]:
         img[2 * 256:2 * 256 + 8] = b"\xAA" * 8
     else:
@@ -49,6 +56,8 @@ def realise(c, scratch, tag):
     if opus_listed:
         s16[8] = 1
         s16[10] = 40
+        if x["vols"] == "valid1":
+            s16[12] = 41
     mkdisc.put(img, 16, bytes(s16))
     data = bytes(img)
     if not x["lastok"]:
@@ -116,7 +125,7 @@ def run(chk, tier, seed):
         # (sector 400 of an 800-sector .ssd, 720 of a 1440-sector .sdd) either looks like a catalogue or does not
         def geom_case(args):
             gi, ext, nsec, other, variant, forged = args
-            x = dict(hdfs=(variant == "HDFS"), aa2=(variant == "WDFS"), start=other, spt18=False, totok=False, vols="none", lastok=True, cat0=True, total=nsec if nsec <= 1023 else 1023)
+            x = dict(hdfs=(variant == "HDFS"), aa2=(variant == "WDFS"), start=other, flen0=False, spt18=False, totok=False, vols="none", lastok=True, cat0=True, total=nsec if nsec <= 1023 else 1023)
             img = mkdisc.blank_surface(nsec, 9)
             ents = [mkdisc.entry("BODY", length=512, start=other, load=0x1900, exe=0x8023), mkdisc.entry("LOW", length=100, start=6)]
             s0, s1 = mkdisc.catalog_fragment(b"GEOM", 0x11, 2, x["total"], ents, byte6_extra=8 if x["hdfs"] else 0)
